@@ -93,3 +93,55 @@ def accessor_sites(fn, names=("weight_for",)):
         if n.get("k") == "MethodCall" and n["name"] in names and len(n["args"]) == 1:
             a = peel_refs(n["args"][0])
             yield n, (a.get("local") if a.get("k") == "Path" else None)
+
+
+PER_SAMPLE_FIELDS = {"weights", "records", "targets"}
+
+
+def zip_after_filter(fn):
+    """`A.filter(..).zip(B)` (or `B.zip(A.filter(..))`) where B walks a per-sample container of the dataset from its start:
+    after the filter the k-th item of A is not sample k any more, so it is paired with another sample's weight / record /
+    target.  Returns [(zip node, adaptor, container)]."""
+    inits = {}
+    for n in walk(fn["body"]):
+        if n.get("k") == "LetStmt" and n.get("init") is not None and n["pat"].get("k") == "Bind":
+            inits[n["pat"]["local"]] = n["init"]
+
+    def container(e, depth=0):
+        """name of the per-sample container an iterator expression walks from the start, else None"""
+        e = strip(e)
+        hops = 0
+        while isinstance(e, dict) and hops < 20:
+            hops += 1
+            k = e.get("k")
+            if k == "MethodCall":
+                if e["name"] in ("filter", "filter_map", "skip", "skip_while", "step_by", "rev", "flat_map", "flatten"):
+                    return None
+                if e["name"] in ("weights", "records", "targets") and peel_refs(e["recv"]).get("name") == "self":
+                    return e["name"]
+                e = strip(e["recv"])
+                continue
+            if k == "Ref" or (k == "Unary" and e["op"] == "*"):
+                e = strip(e["e"])
+                continue
+            if k == "Field":
+                b = peel_refs(e["e"])
+                if e["name"] in PER_SAMPLE_FIELDS and b.get("k") == "Path" and b.get("name") == "self":
+                    return e["name"]
+                return None
+            if k == "Path" and e.get("local") in inits and depth < 3:
+                return container(inits[e["local"]], depth + 1)
+            return None
+        return None
+    out = []
+    for n in walk(fn["body"]):
+        if n.get("k") != "MethodCall" or n["name"] != "zip" or len(n["args"]) != 1:
+            continue
+        for a, b in ((n["recv"], n["args"][0]), (n["args"][0], n["recv"])):
+            ch = _chain(a, inits)
+            bad = [x for x in ch if x in REINDEXING]
+            cont = container(b)
+            if bad and cont:
+                # unless the other side is filtered by the same adaptor (then it is a different, unsupported idiom)
+                out.append((n, bad[0], cont))
+    return out
